@@ -45,6 +45,8 @@ NegoOK(e) ==
   /\ e.res = (IF e.x = Fail THEN "fail" ELSE "ok")              \* completion at both ends or at neither
   /\ e.probe = (IF e.x = Fail THEN "na" ELSE "ok")              \* a datagram sealed by each end opens at the other
   /\ (e.x = Plain) = (e.ap /\ e.bp)                             \* no downgrade (implied by OutcomeOK; stated for the reader)
+  /\ UnsealedProbesOK(e.x, e.plain_early, e.plain_after[1])     \* unsealed messages: never before completion, afterwards
+  /\ UnsealedProbesOK(e.y, 0, e.plain_after[2])                 \* exactly on a session that agreed on Plain
 
 \* same sets as the group under way => same outcome (list order and initiator do not matter)
 SameAsGroup(e) ==
